@@ -532,12 +532,28 @@ def run_infer(case):
     forced = forced_of(case, stored)
     reg = make_registry(case.get("funcs", {}))
     buf = io.StringIO()
+    import signal
+
+    class Timeout(Exception):
+        pass
+
+    def on_alarm(signum, frame):
+        raise Timeout()
+    old_handler = signal.signal(signal.SIGALRM, on_alarm)
+    signal.setitimer(signal.ITIMER_REAL, INFER_TIMEOUT if _timeouts[0] < 8 else INFER_TIMEOUT / 5)
     try:
         with contextlib.redirect_stdout(buf):
             t = SymbolKindFinder(reg)([p[0] for p in real_phases], [p[2] for p in real_phases],
                                       forced_kinds=[(a, b, kind_real(c)) for a, b, c in forced] or None)
+    except Timeout:
+        _timeouts[0] += 1
+        # the outer `while True` does not terminate (kinds oscillate); the model answers OutOfFuel
+        return ("exc", "OutOfFuel"), stored, forced, None
     except Exception as ex:  # noqa: BLE001 - the class is the observable
         return ("exc", type(ex).__name__), stored, forced, None
+    finally:
+        signal.setitimer(signal.ITIMER_REAL, 0)
+        signal.signal(signal.SIGALRM, old_handler)
     import re
     conf = re.findall(r"^trying to derive 'kind' for '(.*?)' in '(.*?)': ", buf.getvalue(), re.M)
     nconf = len(conf)
@@ -547,7 +563,10 @@ def run_infer(case):
     return ("ok", g, pp, nconf), stored, forced, t
 
 
-EXN = {"UnableToInferKind", "ValueError", "AssertionError", "AttributeError", "TypeError", "RuntimeError",
+_timeouts = [0]
+INFER_TIMEOUT = 1.5      # seconds; real inference of these small programs takes milliseconds
+
+EXN = {"OutOfFuel", "UnableToInferKind", "ValueError", "AssertionError", "AttributeError", "TypeError", "RuntimeError",
        "FunctionNotFound"}
 
 
@@ -562,7 +581,7 @@ def infer_case_term(case, res, stored, forced):
     elif res[1] in EXN:
         want = "(Err %s)" % res[1]
     else:
-        want = "(Err OutOfFuel)"      # an exception class the model does not have: always a disagreement
+        want = "(Ok ([], [], 0))"     # an exception class the model does not have: never agrees (tables always hold <t>)
     return "(%s, %s, %s, %s)" % (program_coq(stored), funcs_coq(case.get("funcs", {})),
                                  coq_list("(%s, %s, %s)" % (coq_str(a), coq_str(b), kind_coq1(c))
                                           for a, b, c in forced), want)
@@ -854,6 +873,9 @@ def classify_failure(case, stored, t, o):
                                or not _call_check_ok(t, reg, pn, ("call", s[2], s[3], s[4]))):
             return "unchecked_operand_kinds"
     # classes of defects that have a repair (never suppressed: they only separate the reports)
+    for pn, e in exprs:
+        if any(sube[0] == "call" and sube[1] == "<builtin>isnan" and o["class"] != "CBool" for sube in subexprs(e)):
+            return "isnan_elementwise"
     for pn, e in exprs:
         if any(sube[0] == "pow" and _real_kind(t, reg, pn, sube) == "None" for sube in subexprs(e)):
             return "power_kind_none"
